@@ -1,6 +1,7 @@
 package c10
 
 import (
+	"fmt"
 	"math"
 	"time"
 
@@ -42,6 +43,14 @@ type call struct {
 	f    func(p *canvas.Path)
 }
 
+func mustEqual(name string, got, want []float64) {
+	for i := range want {
+		if got[i] != want[i] {
+			panic(fmt.Sprintf("%s modified the slice passed as its argument: %v, was %v", name, got, want))
+		}
+	}
+}
+
 func calls(rect *canvas.Path) []call {
 	joiners := []canvas.Joiner{canvas.BevelJoin, canvas.RoundJoin, canvas.MiterJoin, canvas.MiterClipJoin, canvas.ArcsJoin, canvas.ArcsClipJoin}
 	cappers := []canvas.Capper{canvas.ButtCap, canvas.RoundCap, canvas.SquareCap}
@@ -66,6 +75,25 @@ func calls(rect *canvas.Path) []call {
 		}},
 		{"SplitAt", true, func(p *canvas.Path) { l := p.Length(); p.SplitAt(l/3, 2*l/3) }},
 		{"Dash", true, func(p *canvas.Path) { p.Dash(0.5, 2, 1) }},
+		// slices handed to variadic parameters belong to the caller: they must come back unchanged
+		{"Dash(slice with zeros)", true, func(p *canvas.Path) {
+			d := []float64{0, 1, 2, 4}
+			p.Dash(0.5, d...)
+			mustEqual("Dash", d, []float64{0, 1, 2, 4})
+			d = []float64{1, 2, 4, 0}
+			p.Dash(0.5, d...)
+			mustEqual("Dash", d, []float64{1, 2, 4, 0})
+		}},
+		{"Dash(odd sub-slice)", true, func(p *canvas.Path) {
+			backing := []float64{2, 1, 3, 7, 8, 9}
+			p.Dash(0, backing[:3]...)
+			mustEqual("Dash", backing, []float64{2, 1, 3, 7, 8, 9})
+		}},
+		{"SplitAt(slice)", true, func(p *canvas.Path) {
+			ts := []float64{3, 1, 2, 0.5}
+			p.SplitAt(ts[:3]...)
+			mustEqual("SplitAt", ts, []float64{3, 1, 2, 0.5})
+		}},
 		{"Copy", true, func(p *canvas.Path) { p.Copy() }},
 		{"Closed/Len/Pos/StartPos", true, func(p *canvas.Path) { p.Closed(); p.Len(); p.Pos(); p.StartPos(); p.HasSubpaths(); p.Empty(); p.Flat() }},
 		{"Coords/Segments/CoordDirections", true, func(p *canvas.Path) { p.Coords(); p.Segments(); p.CoordDirections() }},
